@@ -79,7 +79,7 @@ PROPS = {
         level_text="Proof for the modelled code: the only panic the read path can produce is the documented one at the 1000th call on a failed connection; header reads and frame skips are bounded by what is asked for / present and end with an error on a short stream (no waiting for a claimed length); the models of the reader loops and of the header parsers are total functions whose recursion is bounded by the input length (accepted by Lean's termination checker). Go-level panics cannot arise in the model: they are covered by the regenerated inventory of every index / slice / make / type-assertion site in the functions fed by network input (a new or changed site breaks the tie) and by fuzz correspondence: mutated and random frame streams into connections of both roles with the model predicting every outcome exactly, random and mutated replies to Dial and to CONNECT, junk header values through the exported helpers, all under recover(), a watchdog and a TotalAlloc bound.",
         level_note="Partial: robustness of net/http, net/url, bufio, compress/flate and encoding/base64 internals is assumed; allocation is bounded by measurement in the fuzz streams plus the make-site inventory, not by a theorem about the Go allocator. Fuzzing supports the tie and the search for failing inputs; it is not the proof.",
         lean=["WS.Props.C07"],
-        streams=[("rfuzz", 1200, 30000), ("dfuzz", 200, 4000), ("unit", 400, 8000), ("srv", 300, 6000), ("cli", 300, 6000), ("rviol", 300, 6000), ("origin", 300, 6000), ("zcut", 400, 8000)],
+        streams=[("rfuzz", 1200, 30000), ("dfuzz", 200, 4000), ("unit", 400, 8000), ("srv", 300, 6000), ("cli", 300, 6000), ("rviol", 300, 6000), ("origin", 300, 6000), ("zcut", 400, 8000), ("hsfault", 9, 9)],
     ),
     "C08": P(
         technique="Lean 4 theorems over the reader+writer model + differential correspondence",
